@@ -637,6 +637,20 @@ example : let y := (runAtomicSys 1 [[listenerOp (.listen 0)],
     (y.clean, y.g.pool 0, (y.g.ent 0).refs, holdCount y.threads 0, y.threads.all (fun th => th.pc == .idle))
       = (true, some 0, 2, 2, true) := by decide
 
+-- non-vacuity (per-request client): handler 0 has static upstream 0; a request whose dynamic source returns the
+-- SAME address 0 (and address 1) leaves every count as it was; `per_request_client_keeps_count` applies
+example : let y := (runGroupsSys 2 [[handlerLoadOps [0], requestOps [0, 1]]] [0, 0]).1
+    (y.clean, y.g.pool 0, (y.g.ent 0).refs, holdCount y.threads 0, y.g.pool 1, y.threads.all (fun th => th.pc == .idle))
+      = (true, some 0, 1, 1, none, true) := by decide
+example : ∀ p ∈ [[handlerLoadOps [0], requestOps [0, 1], [Op.closeAll]]], ∀ grp ∈ p, NoRawDelete grp := by
+  intro p hp grp hg
+  simp at hp; subst hp
+  simp at hg
+  rcases hg with h | h | h
+  · subst h; exact noRaw_handlerLoadOps _
+  · subst h; exact noRaw_requestOps _
+  · subst h; intro op hop k; simp at hop; subst hop; simp
+
 -- the log-writer client: config 0 opens writers 0 and 1, config 1 opens writer 0 and fails to open writer 1;
 -- after config 0 closed its logs (closeAll) config 1 still holds writer 0 alive; after both closed, nothing is left
 example : let y := runSched 2 [[.ln 0 true, .ln 1 true, .closeAll], [.ln 0 true, .ln 1 false]] [0, 0, 0, 1, 1, 0, 0, 0, 0, 0, 0]
